@@ -12,8 +12,15 @@
 4. spec/RingTrace.tla (TLC) judges every recorded event: forward and backward iteration and
    empty() of every live list, for signals the callbacks that ran, the combiner chain, the
    result and the unregister callbacks.
-ASan/UBSan reports, crashes and hangs of the harness inside a driven operation are turned into
-rejected events (observed, not decided by the spec); the run is resumed at the next history."""
+   For signals with unregister callbacks also what the unregister callback of a dying connection
+   itself saw of every signal (empty(), one call): the dying connection is a member of no signal any
+   more (Signal.tla: DyingState / DyingReasons, law LawDyingView).
+ASan/UBSan reports, crashes, escaping exceptions and hangs (CPU-time watchdog per history) of the
+harness inside a driven operation are turned into rejected events (observed, not decided by the
+spec); the run is resumed at the next history.  If the full harness does not compile against the tree
+under test, the core units (only what the statement names: harness/c11_core_{list,sig,usig}.cpp) are
+built separately: one that does not compile is a VIOLATION C11:<unit>:does-not-compile, the others
+are still driven and judged; a failure of the observed-only parts alone is an OBSERVATION."""
 import json
 import os
 import re
@@ -34,11 +41,16 @@ OP_KEYS = ("op", "l", "l2", "x", "x2", "b", "mode")
 IN_SCOPE_REASONS = {"forward-extra", "forward-missing", "forward-twice", "forward-order", "backward-extra", "backward-missing",
                     "backward-twice", "backward-order", "forward-walk-leaves-the-list", "backward-walk-leaves-the-list",
                     "empty", "called-extra", "called-missing", "called-twice", "called-order", "call-does-not-end",
-                    "left-fold", "unregister-not-run", "unregister-run-twice", "unregister-of-other-connection"}
+                    "left-fold", "unregister-not-run", "unregister-run-twice", "unregister-of-other-connection",
+                    # a call of a signal made from INSIDE the unregister callback of a dying connection
+                    "dying-called-extra", "dying-called-missing", "dying-called-twice", "dying-called-order",
+                    "dying-call-does-not-end", "dying-left-fold"}
 IN_SCOPE_OPS = {"list_ctor", "list_move_ctor", "list_move_assign", "list_dtor", "elem_ctor", "elem_move_ctor",
                 "elem_move_assign", "elem_dtor", "sig_ctor", "sig_move_ctor", "sig_move_assign", "sig_dtor",
                 "connect", "disconnect"}
 MAX_ABORTS_PER_WORKER = 12
+MAX_HANGS_PER_JOB = 2        # every hang costs the watchdog's 4 CPU-seconds (much more wall time on a loaded machine):
+                             # a job that keeps hanging is given up early
 JUDGE_BATCH = 160000
 LIST_KINDS = ("list_ctor", "list_move_ctor", "list_move_assign", "list_dtor", "elem_ctor", "elem_move_ctor",
               "elem_move_assign", "elem_dtor", "unlink")
@@ -65,6 +77,7 @@ GUARDS = [
     ("Ring", "MC_Ring_bug_iter.cfg", "IterRefines"),
     ("Signal", "MC_Signal_bug_hold_move_copies.cfg", "LawOwnership"),
     ("Signal", "MC_Signal_bug_box_dtor.cfg", "LawOwnership"),
+    ("Signal", "MC_Signal_bug_dying_member.cfg", "LawDyingView"),
 ]
 
 
@@ -120,8 +133,78 @@ def judge_file(ctx, path, nchunks=vlib.NCPU):
     return sorted([b for bs, _ in res for b in bs], key=lambda b: b["l"])
 
 
-def build():
-    return vlib.build_harness("c11_intrusive", ["c11_intrusive.cpp"], libs=("core",))
+CORE_UNITS = {"list": "intrusive-list", "sig": "signal", "usig": "signal-unregister"}
+
+
+def unit_of(fl):
+    return "list" if fl == "list" else "usig" if fl.startswith("u") else "sig"
+
+
+def _tree_build_failure(e):
+    """The first error line if the Infra is a compile / link failure of OUR translation unit against the
+    tree under test (a verdict about the tree); None if it is anything else (also: a library source of
+    the tree itself that does not compile - such a tree does not build its own tests either)."""
+    msg = str(e)
+    m = re.match(r"(compile|link) failed: (\S+)", msg)
+    if not m or (m.group(1) == "compile" and not os.path.abspath(m.group(2)).startswith(os.path.abspath(vlib.HARNESS))):
+        return None
+    return next((l.strip() for l in msg.splitlines() if "error" in l), msg.splitlines()[0])[:500]
+
+
+class Bins:
+    """The harness binaries: the full harness, or - if that does not compile against the tree under test -
+    the core units (only what the statement of C11 names), each built separately."""
+
+    def __init__(self):
+        self.full = None
+        self.core = {}
+        self.errors = {}
+
+    def of(self, fl):
+        return self.full or self.core.get(unit_of(fl))
+
+    def all(self):
+        return [self.full] if self.full else [b for b in self.core.values() if b]
+
+
+def build(ctx):
+    bins = Bins()
+    try:
+        bins.full = vlib.build_harness("c11_intrusive", ["c11_intrusive.cpp"], libs=("core",))
+        return bins
+    except vlib.Infra as e:
+        first = _tree_build_failure(e)
+        if first is None:
+            raise
+    vlib.log("the full harness does not compile against this tree (%s): building the core units separately" % first)
+
+    def one(u):
+        try:
+            bins.core[u] = vlib.build_harness("c11_core_" + u, ["c11_core_%s.cpp" % u], libs=("core",))
+        except vlib.Infra as e:
+            f = _tree_build_failure(e)
+            if f is None:
+                raise
+            bins.core[u] = None
+            bins.errors[u] = f
+    vlib.parallel(one, sorted(CORE_UNITS))
+    for u in sorted(bins.errors):
+        # "If a public API that the statement names no longer compiles with well-formed arguments of a kind
+        # the harness used to pass, that is a VIOLATION: the property cannot hold for inputs the code rejects."
+        ctx.reject("C11:%s:does-not-compile" % CORE_UNITS[u],
+                   "the core harness unit %s (only operations the statement of C11 names: %s) does not compile against the tree under test: %s" % (
+                       "c11_core_%s.cpp" % u, {"list": "list / element construction, moves, destruction, iteration, empty()",
+                                               "sig": "signal construction, moves, destruction, connect, call, connection death",
+                                               "usig": "the same on signals with unregister callbacks"}[u], bins.errors[u]),
+                   {"build": True, "unit": u, "flavour": {"list": "list", "sig": "sig", "usig": "usig"}[u], "script": []})
+    if len(bins.errors) < len(CORE_UNITS):
+        observe(ctx, "C11:build:full-harness-does-not-compile",
+                "the full harness (with the observed-only parts: unlink, held iterator, const iteration, auto_connection_container, "
+                "optional_auto_connection, reentrant operations) does not compile against the tree under test: %s; the in-scope "
+                "histories are driven with the core units %s, the observed-only parts are skipped" % (
+                    first, ", ".join(u for u in sorted(CORE_UNITS) if bins.core.get(u))))
+    ctx.extra["harness_units"] = {"full": False, "core": {u: bool(bins.core.get(u)) for u in sorted(CORE_UNITS)}, "first_error": first}
+    return bins
 
 
 def op_of(e):
@@ -137,7 +220,7 @@ def observe(ctx, signature, what, payload=None):
     if o["by_signature"][signature] == 1 and len(o["examples"]) < 12:
         o["examples"].append({"signature": signature, "what": what[:1200], "script": (payload or {}).get("script")})
     if o["by_signature"][signature] == 1:
-        vlib.log("OBSERVED (outside the statement of C11, not a violation): %s: %s" % (signature, what[:400]))
+        print("OBSERVATION property=C11 (outside the statement, not a violation) %s: %s" % (signature, what[:400]))
 
 
 def in_scope_history(hist_lines, ops):
@@ -185,10 +268,13 @@ def categories(why):
     """Signature categories of the judge's reasons (the reasons themselves go into the text):
     members   - forward/backward iteration or empty() of a list disagrees with the membership
     callbacks - the callbacks a signal call ran are not exactly its live connections in order
-    empty / left-fold / unregister - the other signal observables"""
+    empty / left-fold / unregister - the other signal observables
+    *-in-unregister - the same, seen from inside the unregister callback of a dying connection"""
     cats = set()
     for w in why:
-        if w.startswith("forward-const"):
+        if w.startswith("dying-"):
+            cats.add(categories([w[6:]])[0] + "-in-unregister")
+        elif w.startswith("forward-const"):
             cats.add("const-iteration")
         elif w.startswith("iterator"):
             cats.add("iterator")
@@ -272,6 +358,10 @@ def collect(path, rc, out, what, all_lines, rejections):
         return None
     if rc in (3, 4):
         raise vlib.Infra("harness failed (rc=%d): %s" % (rc, out[-400:]))
+    if rc == 124:
+        # The harness stops itself inside a history that loops (4 CPU-seconds) or blocks (600 s): if the whole
+        # PROCESS runs into the outer wall-clock limit, the machine is overloaded - not a verdict about the code
+        raise vlib.Infra("harness run exceeded the outer wall-clock limit although no history hit its watchdog (overloaded machine?)")
     kind, detail = classify_abort(rc, out)
     hist = vlib.history_of(lines, len(lines)) if lines else []
     fl, ops = script_of(hist)
@@ -288,12 +378,16 @@ def collect(path, rc, out, what, all_lines, rejections):
         if '"e":"reset"' in x:
             h = json.loads(x)["h"]
             break
-    if tail is None and rc == 66:
-        # no operation was in flight: a report at process exit (LeakSanitizer).  It cannot be attributed
+    if tail is None and any(x.startswith('{"e":"end"') for x in lines[-3:]):
+        # all histories were completed: a report at process exit (LeakSanitizer).  It cannot be attributed
         # to a history and a leaked object is not something the statement of C11 talks about: observation
-        rejections.append((0, "C11:exit:sanitizer", "%s: sanitizer report at process exit: %s" % (what, detail), {"script": []}, False))
+        rejections.append((0, "C11:exit:%s" % kind, "%s: %s report at process exit: %s" % (what, kind, detail), {"script": []}, False))
         all_lines += lines
         return None
+    if tail is None and ops:
+        # stopped between two operations of a history (destruction of the driver's empty slots, start of
+        # the next history): attributed to the last operation that was driven
+        opname = ops[-1]["op"]
     rejections.append((len(ops), "C11:%s:%s" % (opname, kind), "%s [%s]: %s during %s: %s; history: %s%s" % (
         what, fl, kind, opname, detail, fmt_ops(ops), ("; " + hint(fl, ops)) if hint(fl, ops) else ""),
         {"flavour": fl, "script": ops, "partial_line": tail}, in_scope_history(hist, ops)))
@@ -309,11 +403,12 @@ def run_replay(ctx, binary, fl, scripts, what, tag):
     pos = 0
     aborts = 0
     k = 0
+    gave_up = False
     while pos < len(scripts):
         spath = os.path.join(ctx.workdir, "scripts_%s_%d.ndjson" % (tag, k))
         opath = os.path.join(ctx.workdir, "replayed_%s_%d.ndjson" % (tag, k))
         vlib.write_ndjson(spath, scripts[pos:])
-        rc, out = vlib.run_harness(binary, ["replay", fl, spath, opath, pos], timeout=1500)
+        rc, out = vlib.run_harness(binary, ["replay", fl, spath, opath, pos], timeout=3000)
         h = collect(opath, rc, out, what, all_lines, rejections)
         k += 1
         for p in (spath, opath):
@@ -325,10 +420,12 @@ def run_replay(ctx, binary, fl, scripts, what, tag):
             break
         aborts += 1
         pos = h + 1
-        if aborts >= 40:
-            vlib.log("replay %s: giving up after %d aborted scripts (%d of %d scripts not run)" % (tag, aborts, len(scripts) - pos, len(scripts)))
+        hangs = sum(1 for r in rejections if r[1].endswith((":hang", ":timeout")))
+        if aborts >= 40 or hangs >= MAX_HANGS_PER_JOB:
+            gave_up = True
+            vlib.log("replay %s: giving up after %d aborted scripts, %d of them hangs (%d of %d scripts not run)" % (tag, aborts, hangs, len(scripts) - pos, len(scripts)))
             break
-    done = min(pos, len(scripts)) if aborts >= 40 else len(scripts)
+    done = min(pos, len(scripts)) if gave_up else len(scripts)
     return all_lines, done, aborts, rejections
 
 
@@ -341,7 +438,7 @@ def run_record(ctx, binary, first, count, maxlen, tag):
     k = 0
     while pos < end:
         opath = os.path.join(ctx.workdir, "recorded_%s_%d.ndjson" % (tag, k))
-        rc, out = vlib.run_harness(binary, ["record", opath, ctx.seed, pos, end - pos, maxlen], timeout=1500)
+        rc, out = vlib.run_harness(binary, ["record", opath, ctx.seed, pos, end - pos, maxlen], timeout=3000)
         h = collect(opath, rc, out, "random history (seed %d)" % ctx.seed, all_lines, rejections)
         k += 1
         try:
@@ -353,7 +450,7 @@ def run_record(ctx, binary, first, count, maxlen, tag):
             break
         aborts += 1
         pos = h + 1
-        if aborts >= MAX_ABORTS_PER_WORKER:
+        if aborts >= MAX_ABORTS_PER_WORKER or sum(1 for r in rejections if r[1].endswith((":hang", ":timeout"))) >= MAX_HANGS_PER_JOB:
             break
     return all_lines, pos - first, aborts, rejections
 
@@ -390,6 +487,100 @@ def count_classes(ctx, lines):
         s = prev_sizes[e["l2"] - 1] if e["l2"] else None
         ctx.count_class((fl, e["op"], d, s, sum(e["elive"]) > 0))
         prev_sizes = tuple(sizes)
+
+
+def untainted_events(lines):
+    """(index, reset record, line) of the op lines of judged, untainted histories (only operations the
+    statement names so far, not an "observed" history, not cut short)."""
+    ok = False
+    rs = None
+    for i, l in enumerate(lines):
+        if l.startswith('{"e":"reset"'):
+            rs = json.loads(l)
+            ok = not rs["observed"]
+            continue
+        if not ok or not l.startswith('{"e":"op"'):
+            if l.startswith('{"e":"aborted"'):
+                ok = False
+            continue
+        m = re.search(r'"op":"(\w+)"', l)
+        if not m or m.group(1) not in IN_SCOPE_OPS:
+            ok = False
+            continue
+        yield i, rs, l
+
+
+def untainted_view_events(lines):
+    """(index, event) of those in which exactly one unregister callback recorded what it saw (the
+    dying-time view)."""
+    for i, rs, l in untainted_events(lines):
+        if rs["unr"] and '"dying":[]' not in l:
+            e = json.loads(l)
+            if len(e.get("dying", [])) == 1:
+                yield i, e
+
+
+def count_full(ctx, lines):
+    """Vacuity of the bound "8 elements / connections": in-scope events in which ONE list / signal shows
+    7 or 8 members (the dense random histories are there for this)."""
+    st = ctx.extra.setdefault("in_scope_events_with_7_or_8_members_in_one", {"list": 0, "signal": 0})
+    for i, rs, l in untainted_events(lines):
+        if rs["list"]:
+            if re.search(r'"fwd":\[\d+(,\d+){6,}\]', l):
+                st["list"] += 1
+        elif l.count('{"c":') >= 7:
+            e = json.loads(l)
+            if any(r.get("live") and len(r["call"]["cbs"]) >= 7 for r in e["lists"]):
+                st["signal"] += 1
+
+
+def count_views(ctx, lines):
+    """Vacuity of the dying-time view: how many in-scope views were judged, in how many the signal of
+    the dying connection (as seen at the observation before) still called other connections / called
+    nobody any more (counted from the callbacks that ran, not from what empty() claims)."""
+    st = ctx.extra.setdefault("dying_views_in_scope", {"judged": 0, "owner_called_others": 0, "owner_called_nobody": 0, "no_callable_owner": 0})
+    for _, e in untainted_view_events(lines):
+        v = e["dying"][0]
+        st["judged"] += 1
+        rec = v["sigs"][v["owner"] - 1] if v["owner"] else None
+        if not rec or not rec.get("live") or not rec["call"]["done"]:
+            st["no_callable_owner"] += 1
+        elif rec["call"]["cbs"]:
+            st["owner_called_others"] += 1
+        else:
+            st["owner_called_nobody"] += 1      # the last connection of its signal died
+
+
+def view_selftest(ctx, lines):
+    """Vacuity guard of the whole pipeline for the dying-time view: one recorded in-scope history is
+    doctored so that the call made from inside the unregister callback ALSO runs the callback of the
+    dying connection (what the code does if the connection is not unlinked before its unregister
+    callback runs); the judge must reject exactly that event, in scope, as dying-called-extra."""
+    tried = 0
+    for i, e in untainted_view_events(lines):
+        v = e["dying"][0]
+        if not v["owner"] or not v["sigs"][v["owner"] - 1]["call"]["done"]:
+            continue
+        tried += 1
+        if tried > 8:
+            break
+        call = v["sigs"][v["owner"] - 1]["call"]
+        call["cbs"] = [{"c": v["c"], "args": call["args"], "r": 0}] + call["cbs"]
+        hist = vlib.history_of(lines, i + 1)
+        doctored = hist[:-1] + [json.dumps(e, separators=(",", ":"))]
+        path = os.path.join(ctx.workdir, "view_selftest.ndjson")
+        with open(path, "w") as f:
+            f.write("\n".join(doctored) + "\n")
+        bad = judge_file(ctx, path, nchunks=1)
+        hit = [b for b in bad if b["l"] == len(doctored) and "dying-called-extra" in b["why"] and b.get("scope") == "in"]
+        if not hit and any(b["l"] < len(doctored) for b in bad):
+            continue    # the code under test made the judge stop earlier in this history: take another one
+        if not hit:
+            raise vlib.Infra("vacuity guard: the judge accepted a dying-time view in which the dying connection is still called: %s" % bad)
+        ctx.extra.setdefault("vacuity_guards", []).append({"cfg": "RingTrace.cfg on a doctored recorded history (dying connection called from its own unregister callback)",
+                                                           "violates": "dying-called-extra", "states": len(doctored)})
+        return True
+    return False
 
 
 def model_check_jobs(ctx, thorough):
@@ -446,14 +637,14 @@ def run(ctx):
         lambda: out.__setitem__("iter", emit_scripts(ctx, "Ring", "MC_Ring_iter.cfg", 5000)),
         lambda: out.__setitem__("sigs", emit_scripts(ctx, "Signal", "MC_Signal_inscope.cfg", 1000)),
         lambda: out.__setitem__("owners", emit_scripts(ctx, "Signal", "MC_Signal_small.cfg", 1000)),
-        lambda: out.__setitem__("binary", build()),
+        lambda: out.__setitem__("bins", build(ctx)),
     ]
     if thorough:
         jobs.append(lambda: out.__setitem__("owners3", emit_scripts(ctx, "Signal", "MC_Signal_scripts.cfg", 50000)))
     vlib.parallel(lambda f: f(), jobs, workers=6)
     ctx.mc_runs.sort(key=lambda r: (r["module"], r["cfg"]))
     ctx.extra["vacuity_guards"].sort(key=lambda g: g["cfg"])
-    binary = out["binary"]
+    bins = out["bins"]
 
     def inscope(scripts):
         return [sc for sc in scripts if all(o["op"] in IN_SCOPE_OPS for o in sc)]
@@ -497,7 +688,10 @@ def run(ctx):
             (fl, (sigs if fl == "sig" else sigs[(ctx.seed + k) % (nf - 1)::nf - 1]) + owners[(ctx.seed + k) % nf::nf])
             for k, fl in enumerate(SIG_FLAVOURS)]
     # 3. spec -> code
-    res = vlib.parallel(lambda j: run_replay(ctx, binary, j[0], j[1], "TLC-generated script", j[0]), jobs)
+    if not bins.full:
+        # core units: only the histories of operations the statement names, on the flavours that compile
+        jobs = [(fl, inscope(sc)) for fl, sc in jobs if bins.of(fl)]
+    res = vlib.parallel(lambda j: run_replay(ctx, bins.of(j[0]), j[0], j[1], "TLC-generated script", j[0]), jobs)
     lines = []
     for (fl, sc), (ls, done, aborts, rej) in zip(jobs, res):
         lines += ls
@@ -506,12 +700,14 @@ def run(ctx):
         ctx.extra.setdefault("replayed_scripts", {})[fl] = {"scripts": len(sc), "run": done, "aborted": aborts}
     judge_lines(ctx, lines, "TLC-generated script", os.path.join(ctx.workdir, "replayed.ndjson"))
     count_classes(ctx, lines)
+    count_views(ctx, lines)
+    selftested = view_selftest(ctx, lines)
     ctx.sample({"tlc_script": small[len(small) // 2]})
     ctx.sample({"tlc_signal_script": sigs[len(sigs) // 2]})
     ctx.sample({"tlc_iterator_script_observed_only": iters[len(iters) // 2]})
     ctx.sample({"tlc_owner_script_observed_only": owners[len(owners) // 2]})
     # observation (outside the statement, undocumented): a callback that drops its OWN connection
-    rc, outp = vlib.run_harness(binary, ["probe_drop_self"], timeout=60)
+    rc, outp = vlib.run_harness(bins.full, ["probe_drop_self"], timeout=60) if bins.full else (0, "not run (core units only)")
     kind, detail = classify_abort(rc, outp) if rc != 0 else ("ok", outp.strip().replace("\n", "; ")[:200])
     ctx.extra["observed_only_probe_drop_own_connection_during_call"] = {"rc": rc, "result": kind, "detail": detail[:300]}
     if rc != 0:
@@ -523,17 +719,22 @@ def run(ctx):
     stats = {"requested": rounds * nw * per, "run": 0, "aborted": 0}
     for rd in range(rounds):
         base = rd * nw * per
-        res = vlib.parallel(lambda w: run_record(ctx, binary, base + w * per, per, ml, "w%d" % w), list(range(nw)))
+        # (with core units every unit records the histories of its own flavours of each range)
+        wjobs = [(w, k, b) for w in range(nw) for k, b in enumerate(bins.all())]
+        res = vlib.parallel(lambda j: run_record(ctx, j[2], base + j[0] * per, per, ml, "w%d_%d" % (j[0], j[1])), wjobs)
         lines = []
         for ls, done, aborts, rej in res:
             lines += ls
             apply_rejections(ctx, rej)
+            done = sum(1 for x in ls if x.startswith('{"e":"reset"'))
             ctx.traces_validated += done
             stats["run"] += done
             stats["aborted"] += aborts
         judge_lines(ctx, lines, "random history (seed %d)" % ctx.seed, os.path.join(ctx.workdir, "recorded.ndjson"))
         if rd < 2:
             count_classes(ctx, lines)
+        count_views(ctx, lines)
+        count_full(ctx, lines)
         if rd == 0:
             evs = [json.loads(x) for x in lines[1:200] if x.startswith('{"e":"op"')]
             if evs:
@@ -541,12 +742,20 @@ def run(ctx):
         if stats["aborted"] >= 3 * nw * MAX_ABORTS_PER_WORKER:
             break
     ctx.extra["recorded_histories"] = stats
+    # vacuity of the dying-time view (only meaningful when the code under test did not stop the runs)
+    dv = ctx.extra.get("dying_views_in_scope", {})
+    if not ctx.violations and not (selftested and dv.get("owner_called_others") and dv.get("owner_called_nobody")):
+        raise vlib.Infra("vacuity guard: no in-scope dying-time view was judged (%s, self-test %s)" % (dv, selftested))
+    full = ctx.extra.get("in_scope_events_with_7_or_8_members_in_one", {})
+    if not ctx.violations and not (full.get("list") and full.get("signal")):
+        raise vlib.Infra("vacuity guard: no in-scope history reached 7 members in one list and in one signal (%s)" % full)
     ctx.rule = ("histories: (a) every generated transition of the complete state graphs of the small TLC models as an op script "
                 "(Ring 2 lists x 3 elements x3 destruction orders, Ring 3x4 %s, Ring 2x3 with a held iterator %s, Signal 2 signals x "
                 "3 connections on the 12 signal flavours (int/void result, plain/unregister base, 0/1/2 arguments)%s, Signal with "
                 "owner operations 2x2 + 1 container), (b) seeded random histories <= 50 ops over 3 lists/signals, 8 elements/"
                 "connections, 2 containers, cycling through the flavours: in-scope-only histories, extended histories (unlink, "
-                "iterators, owner moves, containers: observed only) and reentrant histories (never judged), everything destroyed "
+                "iterators, owner moves, containers: observed only), dense in-scope histories (every fourth: up to 8 members in ONE "
+                "list / signal) and reentrant histories (never judged), everything destroyed "
                 "in random order at the end; a class = (flavour, operation, size bucket of the destination and of the source "
                 "list/signal before the operation, any element alive) of an executed event" % (
                     ("every 2nd transition", "complete", " (all on int(int), half on each other)") if thorough else ("every 16th transition", "every 8th", " (all on int(int), an eleventh on each other)")))
@@ -556,14 +765,22 @@ def run(ctx):
         "a signal with a result type is only called while it has a combiner (a moved-from combiner is unspecified)",
         "only behaviour named by the statement of C11 can become a VIOLATION (operation kinds and reasons marked in scope in spec/RingTrace.tla); unlink, iterator steps, const iteration, moves of connection owners, containers, signal::empty(), callback arguments and reentrant callbacks are judged or driven but only reported under coverage.observations",
         "an element that is move-constructed/assigned from another takes over its place in the list (link order is the order of the links)",
+        "a connection that is being destroyed is not alive: a call of a signal made from inside the unregister callback of the dying connection must not invoke it (in scope; only operations in which exactly one connection dies are judged); what signal::empty() says there is observed only",
         "Ring.tla is a hand transcription of base_impl.hpp/list_impl.hpp (repaired code); verdicts are only taken from traces of the real code judged by Membership.tla/Signal.tla",
     ]
 
 
 def replay(ctx, payload):
-    binary = build()
+    bins = build(ctx)      # (rejects again if a core unit still does not compile)
     p = payload["payload"]
     fl = p.get("flavour", "list")
+    binary = bins.of(fl)
+    ctx.count_class("replay")
+    ctx.count_class("replay2")
+    ctx.rule = "replay of one saved history (three destruction orders)"
+    if p.get("build") or not binary or (not bins.full and not all(o["op"] in IN_SCOPE_OPS for o in p["script"])):
+        ctx.sample({"unit": p.get("unit", unit_of(fl))})
+        return
     # run the saved history with each destruction order (script index mod 3)
     lines, done, aborts, rej = run_replay(ctx, binary, fl, [p["script"]] * 3, "replay", "replay")
     apply_rejections(ctx, rej)
